@@ -172,6 +172,7 @@ def judge (c : Config) : Obs → List String
     (match c.rcmd.chosen with
       | some (src, t) => if c.avail.contains t then [] else [s!"rcmd:{src.name}:unknown:accepted"]
       | none => []) ++
+    (if c.wMalformed then ["hostspec:malformed:accepted"] else []) ++
     -- the same two rules for values given per target in the target list
     (if c.wTypes.any (fun t => !(c.avail.contains t)) then ["rcmd:wcoll:unknown:accepted"] else []) ++
     (if c.wUsers.any (fun u => decide (u.length > c.loginMax)) then ["ruser:wcoll:overlong:accepted"] else []) ++
